@@ -604,7 +604,7 @@ func sortStrings(s []string) {
 }
 
 // stopDuringTeardown holds one connection in the tail of its own tear-down (after it has been unregistered, at
-// the site close.before_stats) and calls Stop: Stop must not return while that connection's goroutine is held.
+// the site close.before_closed) and calls Stop: Stop must not return while that connection's goroutine is held.
 func stopDuringTeardown(r *monitor.Run) {
 	yield.Enable(1, false)
 	b, err := broker.Start(broker.Options{})
@@ -615,7 +615,7 @@ func stopDuringTeardown(r *monitor.Run) {
 	entered, release := make(chan struct{}), make(chan struct{})
 	var once sync.Once
 	yield.Observe(func(site string) {
-		if site == "close.before_stats" {
+		if site == "close.before_closed" {
 			once.Do(func() {
 				close(entered)
 				select {
@@ -643,7 +643,7 @@ func stopDuringTeardown(r *monitor.Run) {
 	select {
 	case <-entered:
 	case <-time.After(10 * time.Second):
-		r.Inconclusive("stopDuringTeardown: the connection never reached close.before_stats")
+		r.Inconclusive("stopDuringTeardown: the connection never reached close.before_closed")
 		close(release)
 		b.Stop(5 * time.Second)
 		return
